@@ -66,15 +66,15 @@ def run(tier, seed):
         chk.cov["transitions"] += r.generated
         frames += sum(1 for l in open(trace) if '"ev":"bframe"' in l)
         judge(chk, trace, mm)
-    # self-test: shift one write by 40 T-states / report a wrong colour
+    # self-test: one border row in a wrong colour / a wrong reported colour
     st = os.path.join(wd, "selftest.ndjson")
     n = 0
     with open(first) as f, open(st, "w") as g:
         for i, line in enumerate(f):
             e = json.loads(line)
-            if e["ev"] == "bframe" and n < 2 and len(e["writes"]) >= 1 and 15000 < e["writes"][0][0] < 50000 and e["writes"][0][1] % 8 != e["startcolor"]:
+            if e["ev"] == "bframe" and n < 2:
                 if n == 0:
-                    e["writes"][0][0] += 60
+                    e["rows"][5][0][0] = (e["rows"][5][0][0] + 1) % 8      # a top-border row in the wrong colour
                 else:
                     e["reported"] = (e["reported"] + 1) % 8
                 n += 1
